@@ -21,7 +21,7 @@ META = dict(
          "pair over {D/2, D, 1.5D, 2D, 3D, nD, (n+1)D} (ints where integral, floats otherwise; non-multiples, shorter "
          "than a step, longer than the series) x tolerance in {default 0, .5, 1, 2, 3.5} (window ranges 0,1,2,3 fall on "
          "both sides and exactly on it); D=60 full grid to N, reduced grid {D,2D,3D}^2 at N+1, D in {1,900} to a "
-         "smaller N. Each state = one real flat_line_test call judged per point by the scalar reference. "
+         "smaller N; plus one 1028-point series (de Bruijn sequence with every length-5 window) per D with 8x8 durations. Each state = one real flat_line_test call judged per point by the scalar reference. "
          "non-trivial = reference demands SUSPECT or FAIL somewhere",
     bounds={"quick": {"D=60 full": 5, "D=60 reduced": 6, "D=1,900": 4}, "thorough": {"D=60 full": 7, "D=60 reduced": 8, "D=1,900": 6}},
     not_judged=["missing points (C02)", "irregular sampling (the statement is about regularly sampled series)"],
@@ -40,7 +40,7 @@ def durations(D, n):
 
 
 def tasks(tier):
-    ts = []
+    ts = [("long", D) for D in (1, 60, 900)]
     for n in range(0, FULL_N[tier] + 1):
         for first in (SIGMA if n >= 4 else (None,)):
             ts.append(("grid", 60, n, first, "full"))
@@ -76,6 +76,14 @@ def replay(case):
 
 
 def run_task(task, acc):
+    if task[0] == "long":
+        D = task[1]
+        x = alpha.debruijn(SIGMA, 5)  # every length-5 window over the alphabet, 1028 points
+        ds = [D / 2, D, 1.5 * D, 2 * D, 3 * D, 4 * D, 7 * D, 2000 * D]
+        ds = [int(d) if float(d).is_integer() else float(d) for d in ds]
+        cases = (dict(x=list(x), D=D, suspect=s, fail=f, tol=tol) for s in ds for f in ds for tol in TOL)
+        run_cases(acc, cases, check_case)
+        return
     _, D, n, first, grid = task
     if grid == "full":
         ds = durations(D, n)
